@@ -1,5 +1,8 @@
 //! Fixtures, reference models and oracles for the `anda_db` collection-level
 //! properties (C01..C06).
 
+pub mod crash;
 pub mod fixture;
 pub mod model;
+pub mod ops;
+pub mod oracle;
